@@ -61,6 +61,7 @@ CrystalVerdict(t) ==
      THEN "OOD cell" ELSE
   IF CGrow(base.atoms, {1}) # DOMAIN base.atoms THEN "OOD not-one-molecule" ELSE
   IF ~PeriodicClear(base, 460) THEN "OOD molecules-touch" ELSE
+  IF OnEnvSphere(base) THEN "OOD atom-on-the-environment-sphere" ELSE
   \* "no surface inside the bounds" (a loosely packed listing: some direction meets no neighbour) is an outcome like any
   \* other: it must be the outcome of every listing of the arrangement; nothing more can be said about such a trace
   IF t.poses[1].exc = "ValueError:isovalue" THEN
@@ -70,6 +71,10 @@ CrystalVerdict(t) ==
   IF t.poses[1].exc # "" THEN "REJECT Raised:" \o t.kind ELSE
   IF t.poses[1].rows = <<>> THEN "REJECT NoRows:" \o t.kind ELSE
   IF bad = {} THEN "ACCEPT" ELSE
+  \* a surface that some ray from the centre crosses more than once (or grazes) has no unique radial description: which crossing
+  \* is reported may depend on rounding, so differences between listings say nothing (sampled by the harness on the base listing)
+  IF ~t.star /\ (\A k \in bad : CWordOK(base, t.poses[k].word) /\ CApplyWord(base, t.poses[k].word) = CCfg(t.poses[k]) /\ t.poses[k].exc = "")
+     THEN "OOD surface-not-star-shaped" ELSE
   IF ~CWordOK(base, t.poses[first].word) THEN "OOD word" ELSE
   IF CApplyWord(base, t.poses[first].word) # CCfg(t.poses[first]) THEN "OOD pose" ELSE
   IF t.poses[first].exc # "" THEN "REJECT Raised:" \o t.kind ELSE
